@@ -102,6 +102,43 @@ Print Assumptions C07_trace_states_then_infer_sound.
 Example C07_cert_side_nonvacuous : cert_side c07_two_cfg_early = true.
 Proof. reflexivity. Qed.
 
+(* ---- known finding F42 (class [prethreaded_if], Model/AccInferTy.v): accfg-trace-states applied to IR it
+   has already threaded.  (a) an scf.if that already has a state result gets a second one: the output is
+   well-threaded input no more for the certificate ([cert_side] false) although the input was certified —
+   the theorems above do not apply to such outputs (soundness there is only executed per run, L2);
+   (b) when the scf.if result feeds a loop that already carries the state, the pass builds an scf.for whose
+   operands and block arguments do not line up (model: None; real code: verifier error),
+   notes/probe_c07_rethread_if.mlir / probe_c07_rethread_if_loop.mlir. *)
+Definition c07_rethread_if : prog :=
+  mkProg [0%nat; 1%nat; 2%nat]
+   [SSetup 0%nat 3%nat None [(0%nat, 0%nat)]; SLaunch 0%nat 4%nat 3%nat []; SAwait 0%nat 4%nat;
+    SIf 2%nat [(7%nat, (TState 0%nat))]
+      [SSetup 0%nat 5%nat (Some 3%nat) [(0%nat, 1%nat)]; SLaunch 0%nat 6%nat 5%nat []; SAwait 0%nat 6%nat] [5%nat] [] [3%nat];
+    SSetup 0%nat 8%nat (Some 7%nat) [(0%nat, 0%nat)]; SLaunch 0%nat 9%nat 8%nat []; SAwait 0%nat 9%nat].
+Definition c07_rethread_if_loop : prog :=
+  mkProg [0%nat; 1%nat; 2%nat; 3%nat; 4%nat; 5%nat]
+   [SSetup 0%nat 6%nat None [(0%nat, 0%nat)]; SLaunch 0%nat 7%nat 6%nat []; SAwait 0%nat 7%nat;
+    SIf 2%nat [(10%nat, (TState 0%nat))]
+      [SSetup 0%nat 8%nat (Some 6%nat) [(0%nat, 1%nat)]; SLaunch 0%nat 9%nat 8%nat []; SAwait 0%nat 9%nat] [8%nat] [] [6%nat];
+    SFor 11%nat 3%nat 4%nat 5%nat [(12%nat, 10%nat, (TState 0%nat))] [15%nat]
+      [SSetup 0%nat 13%nat (Some 12%nat) [(0%nat, 0%nat)]; SLaunch 0%nat 14%nat 13%nat []; SAwait 0%nat 14%nat] [13%nat]].
+Example C07_rethreaded_if_refuted :
+  prethreaded_if c07_rethread_if = true /\ cert_side c07_rethread_if = true /\
+  (exists q, weave c07_rethread_if = Some q /\ cert_side q = false /\
+             chk_prog (tfun (ainfer q)) (test_oracle 1) q [7; 9; 1] = []) /\
+  prethreaded_if c07_rethread_if_loop = true /\ cert_side c07_rethread_if_loop = true /\
+  weave c07_rethread_if_loop = None.
+Proof.
+  split; [reflexivity|]. split; [reflexivity|]. split.
+  - eexists. split; [reflexivity|]. split; vm_compute; reflexivity.
+  - repeat split; vm_compute; reflexivity.
+Qed.
+Print Assumptions C07_rethreaded_if_refuted.
+
+(* outside the class the woven lowering-form witness is certified (the class is not everything) *)
+Example C07_not_prethreaded_if : prethreaded_if c07_two_cfg_early = false.
+Proof. reflexivity. Qed.
+
 (* ---- the model of _weave_states_in_region (compared with the real pass by L1 on every run) ------
    What is still assumed after something that may reconfigure the accelerators behind the
    compiler's back (clause "nothing is assumed" of C07; defect F2 was exactly the failure of the
